@@ -4,6 +4,7 @@
 package c01
 
 import (
+	"bytes"
 	"encoding/hex"
 	"fmt"
 	"math/big"
@@ -117,6 +118,19 @@ func bigOf(s string) *big.Int {
 	return v
 }
 
+// pdBytes: perform data as hex, or "xN:HH" for N bytes of value HH (large payloads stay small in the case files)
+func pdBytes(pd string) ([]byte, error) {
+	if strings.HasPrefix(pd, "x") {
+		var n int
+		var v byte
+		if _, err := fmt.Sscanf(pd, "x%d:%02x", &n, &v); err != nil {
+			return nil, err
+		}
+		return bytes.Repeat([]byte{v}, n), nil
+	}
+	return hex.DecodeString(pd)
+}
+
 func (g GRes) real() common.CheckResult {
 	r := common.CheckResult{
 		PipelineExecutionState: g.State, Retryable: g.Retry, Eligible: !g.Inelig, IneligibilityReason: g.Reason,
@@ -124,7 +138,7 @@ func (g GRes) real() common.CheckResult {
 		GasAllocated: g.Gas, FastGasWei: bigOf(g.Fgw), LinkNative: bigOf(g.Ln),
 	}
 	if g.PD != "-" {
-		b, err := hex.DecodeString(g.PD)
+		b, err := pdBytes(g.PD)
 		if err != nil {
 			panic(err)
 		}
